@@ -244,7 +244,7 @@ func (x *planExec) runRequest(t *Task, op *Op) *OpResult {
 			x.handleDeep = map[string]string{}
 		}
 		if _, ok := x.handleDeep[op.ID]; !ok && op.Resubmit == "" {
-			x.handleDeep[op.ID] = Deep(w.env.LibValue(h))
+			x.handleDeep[op.ID] = DeepCap(w.env.LibValue(h))
 		}
 		return w.DoLib(t, h, op.Inject)
 	}
@@ -423,7 +423,7 @@ func (x *planExec) finish(op *Op, res *OpResult) {
 	}
 	if prop == "C09" {
 		for _, id := range sortedStrKeys(x.handleDeep) {
-			if now := Deep(x.w.env.LibValue(x.handles[id])); now != x.handleDeep[id] {
+			if now := DeepCap(x.w.env.LibValue(x.handles[id])); now != x.handleDeep[id] {
 				x.violate("C09", "other-request-value-modified", op.ID, "C09|other-request-value-modified|"+method,
 					"the request value %s (held by the client, sharing memory with other requests) changed while %s was processed: %s", id, op.ID, firstDiff(x.handleDeep[id], now))
 				x.handleDeep[id] = now
